@@ -13,23 +13,30 @@ import sys, json
 sys.path.insert(0, sys.argv[1]); sys.path.insert(0, sys.argv[2])
 from harness.props import c14
 import warnings; warnings.simplefilter('ignore')
-w = c14.World()
+w = c14.World(only_m=True)
 print(json.dumps(c14.observe_m(w)))
 '''
 
 
 class World:
-    def __init__(self):
+    def __init__(self, only_m=False):
         import optyx
         from optyx.core.parameters import Parameter
+        if not only_m:
+            # N is written first, with NumPy-typed literals where M uses plain Python numbers of equal value: how one model
+            # spells a number must not change what the other model's literal is
+            self.xN = optyx.Variable('x', lb=-5, ub=1)
+            self.yN = optyx.Variable('y', lb=-5, ub=1)
+            self.litN = self.xN ** np.int64(2) + np.float64(3.0) * self.yN + np.int64(1) + optyx.sin(np.float32(2.0)) * self.xN
         self.pM = Parameter('p', PM)
         self.xM = optyx.Variable('x', lb=0, ub=4)
         self.yM = optyx.Variable('y', lb=0, ub=4)
         self.nM = self.pM * self.xM + self.xM ** 2
         self.hM = self.pM * self.xM * self.yM + self.xM ** 2 + self.yM ** 2      # mixed Hessian entry = the parameter leaf
         self.pN = Parameter('p', PN)
-        self.xN = optyx.Variable('x', lb=-5, ub=1)
-        self.yN = optyx.Variable('y', lb=-5, ub=1)
+        if only_m:
+            self.xN = optyx.Variable('x', lb=-5, ub=1)
+            self.yN = optyx.Variable('y', lb=-5, ub=1)
         self.nN = self.pN * self.xN - self.xN
         self.hN = self.pN * self.xN * self.yN - self.yN ** 2
         # same-named vectors in the two models, used through views that optyx gives the same display name ("v[0:3]")
